@@ -49,6 +49,9 @@ func genIniForDecl(r *Rng, d *DeclSpec, dupSections bool) string {
 		}
 		for j := 0; j < reps; j++ {
 			e.Val = iniValText(r, oi.O)
+			if r.Chance(1, 12) {
+				e.Val = r.Pick([]string{"x!y", "maybe", "12x", "k:x!y", "purple", "1.2.3"}) // conversion-error messages are observables too
+			}
 			rest = append(rest, e)
 		}
 		if dupSections {
